@@ -241,58 +241,102 @@ func seqBracket(c *core.Ctx, name string, fn *ssa.Function, an *ir.Analysis) {
 	rootAtom := &ir.Term{Op: "field", Aux: "Root", Args: []*ir.Term{{Op: "param", Aux: fn.Params[0].Name()}}}
 	okB, okR, okC := true, true, true
 	kindFor := map[int]string{} // Root polarity -> kind, must agree between enter and leave
-	check := func(p *ir.Path, wantPhase string) {
-		cbs := callbacksOf(p)
-		if len(cbs) != 1 {
+	// the callback of one phase: enter_K / leave_K (depth, node) on the visitor argument, K chosen by the Root flag
+	check := func(p *ir.Path, cb *ir.Step, wantPhase string) {
+		ph, k := callbackKind(cb.Method.Name())
+		if ph != wantPhase || !paramOf(cb.A[0], fn, 2) || !paramOf(cb.A[1], fn, 1) || !paramOf(cb.A[2], fn, 0) {
 			okB = false
-			c.Fail("bracket", name, lastPos(p), "expected exactly one %s callback on this path segment, found %d", wantPhase, len(cbs))
-			return
-		}
-		ph, k := callbackKind(cbs[0].Method.Name())
-		if ph != wantPhase || !paramOf(cbs[0].A[0], fn, 2) || !paramOf(cbs[0].A[1], fn, 1) || !paramOf(cbs[0].A[2], fn, 0) {
-			okB = false
-			c.Fail("bracket", name, cbs[0].Pos(), "expected %s_K(depth, node) on the visitor argument, found %s", wantPhase, cbs[0].String())
+			c.Fail("bracket", name, cb.Pos(), "expected %s_K(depth, node) on the visitor argument, found %s", wantPhase, cb.String())
 		}
 		pol := polarity(p, rootAtom)
 		if pol == 0 {
 			okR = false
-			c.Fail("root-pairing", name, cbs[0].Pos(), "the callback kind is chosen without testing the node's Root flag")
+			c.Fail("root-pairing", name, cb.Pos(), "the callback kind is chosen without testing the node's Root flag")
 			return
 		}
 		if prev, seen := kindFor[pol]; seen && prev != k {
 			okR = false
-			c.Fail("root-pairing", name, cbs[0].Pos(), "enter and leave use different callback kinds (%s / %s) for the same Root value: the visit is not well-bracketed", prev, k)
+			c.Fail("root-pairing", name, cb.Pos(), "enter and leave use different callback kinds (%s / %s) for the same Root value: the visit is not well-bracketed", prev, k)
 		}
 		kindFor[pol] = k
 	}
-	for _, p := range an.Segs[nil] {
-		check(p, "enter")
-		if p.To == nil && !(p.Exit == ir.ExitReturn && !p.Results[0].IsNil()) {
-			okB = false
-			c.Fail("bracket", name, lastPos(p), "the visit ends before the children without an error")
-		}
-	}
 	l := countedLoop(an, h)
-	if l == nil || l.RangeOver == nil || !(l.RangeOver.Op == "field" && l.RangeOver.Aux == "Seq" && paramOf(l.RangeOver.Args[0], fn, 0)) {
+	if l == nil || !l.Rotated() && (l.RangeOver == nil || !(l.RangeOver.Op == "field" && l.RangeOver.Aux == "Seq" && paramOf(l.RangeOver.Args[0], fn, 0))) {
 		okC = false
 		c.Fail("children", name, fn.Pos(), "the children loop is not an ascending range over the node's own Seq")
 	}
-	for _, p := range an.Segs[h] {
-		isIter := l != nil && l.RangeOver != nil && polarity(p, l.ContinueAtom(an)) > 0
-		if isIter {
-			cs := calls(p)
-			good := len(cs) == 1 && cs[0].Method != nil && cs[0].Method.Name() == "Apply" && l.IsElem(an, cs[0].A[0]) && paramOf(cs[0].A[2], fn, 2)
-			if good {
-				d, isK := plusConst(cs[0].A[1], &ir.Term{Op: "param", Aux: fn.Params[1].Name()})
-				good = isK && d == 1
-			}
-			if !good {
-				okC = false
-				c.Fail("children", name, lastPos(p), "each child must be visited exactly once as child.Apply(depth+1, v):\n%s", p)
-			}
-			continue
+	if l != nil && l.Rotated() {
+		// `for i := range len(n.Seq)`: bottom-tested, counted 0 .. len(n.Seq)-1
+		seqLen := &ir.Term{Op: "len", Args: []*ir.Term{{Op: "field", Aux: "Seq", Args: []*ir.Term{{Op: "param", Aux: fn.Params[0].Name()}}}}}
+		if !(l.Step == 1 && l.Bound != nil && ir.Same(l.Bound, seqLen)) {
+			okC = false
+			c.Fail("children", name, fn.Pos(), "the children loop is not an ascending count over the node's own Seq")
 		}
-		check(p, "leave")
+	}
+	// every segment is a word of the phase automaton  start -enter-> children -child*-> children -leave-> done ;
+	// a segment from the entry begins in start, one from the loop header in children. The number of children visited on
+	// a segment is the number of times it runs the loop body: one where the loop continues (or, bottom-tested, on every
+	// segment from the header), none elsewhere.
+	run := func(p *ir.Path, state int, wantChildren int) {
+		nChild := 0
+		for i := range p.Steps {
+			st := &p.Steps[i]
+			if st.Kind != ir.KCall {
+				continue
+			}
+			ph := ""
+			if st.Method != nil {
+				ph, _ = callbackKind(st.Method.Name())
+			}
+			switch {
+			case ph == "enter" && state == 0:
+				check(p, st, "enter")
+				state = 1
+			case ph == "leave" && state == 1:
+				check(p, st, "leave")
+				state = 2
+			case ph != "":
+				okB = false
+				c.Fail("bracket", name, st.Pos(), "the %s callback comes out of turn (the visit is enter_K; children; leave_K):\n%s", ph, p)
+				return
+			default:
+				nChild++
+				good := state == 1 && st.Method != nil && st.Method.Name() == "Apply" && l != nil && isChildElem(an, l, fn, st.A[0]) && paramOf(st.A[2], fn, 2)
+				if good {
+					d, isK := plusConst(st.A[1], &ir.Term{Op: "param", Aux: fn.Params[1].Name()})
+					good = isK && d == 1
+				}
+				if !good {
+					okC = false
+					c.Fail("children", name, st.Pos(), "each child must be visited exactly once, between enter and leave, as child.Apply(depth+1, v):\n%s", p)
+					return
+				}
+			}
+		}
+		failed := p.Exit == ir.ExitReturn && len(p.Results) == 1 && !p.Results[0].IsNil()
+		switch {
+		case failed: // an error is handed back at once (error-stops decides which)
+		case p.To == h && state != 1:
+			okB = false
+			c.Fail("bracket", name, lastPos(p), "the children loop is entered without the enter callback (or after leave):\n%s", p)
+		case p.To == nil && state != 2:
+			okB = false
+			c.Fail("bracket", name, lastPos(p), "the visit ends without the leave callback and without an error:\n%s", p)
+		}
+		if !failed && nChild != wantChildren || failed && nChild > wantChildren {
+			okC = false
+			c.Fail("children", name, lastPos(p), "this segment visits %d children, expected %d (each child exactly once):\n%s", nChild, wantChildren, p)
+		}
+	}
+	for _, p := range an.Segs[nil] {
+		run(p, 0, 0)
+	}
+	for _, p := range an.Segs[h] {
+		want := 0
+		if l != nil && (l.Rotated() || polarity(p, l.ContinueAtom(an)) > 0) {
+			want = 1
+		}
+		run(p, 1, want)
 	}
 	if mk, sk := kindFor[1], kindFor[-1]; okR && !(mk == "Morphism" && sk == "Seq") {
 		okR = false
@@ -317,6 +361,24 @@ func seqBracket(c *core.Ctx, name string, fn *ssa.Function, an *ir.Analysis) {
 }
 
 // ---------------------------------------------------------------------------
+
+// isChildElem: t is the element of the node's Seq the children loop is at.
+func isChildElem(an *ir.Analysis, l *Loop, fn *ssa.Function, t *ir.Term) bool {
+	if l.RangeOver != nil && l.IsElem(an, t) {
+		return true
+	}
+	seq := &ir.Term{Op: "field", Aux: "Seq", Args: []*ir.Term{{Op: "param", Aux: fn.Params[0].Name()}}}
+	idx := l.Index(an)
+	for _, cand := range []*ir.Term{
+		{Op: "index", Args: []*ir.Term{seq, idx}},
+		{Op: "load", Aux: "0", Args: []*ir.Term{{Op: "iaddr", Args: []*ir.Term{seq, idx}}}},
+	} {
+		if ir.Same(t, cand) {
+			return true
+		}
+	}
+	return false
+}
 
 func isDuctNamed(t types.Type, name string) (*types.Named, bool) {
 	nt, ok := t.(*types.Named)
@@ -502,6 +564,29 @@ func seqMethods(c *core.Ctx) (appendFn, unitFn *ssa.Function) {
 			unitFn = c.W.Prog.FuncValue(m)
 		case 1:
 			appendFn = c.W.Prog.FuncValue(m)
+		}
+	}
+	// the same two roles written as plain unexported functions of the package: (*AstSeq) bool, (*AstSeq, Ast) bool
+	isSeqPtr := func(t types.Type) bool {
+		pt, ok := t.(*types.Pointer)
+		return ok && types.Identical(pt.Elem(), nt)
+	}
+	scope := pk.Types.Scope()
+	for _, n := range scope.Names() {
+		f, ok := scope.Lookup(n).(*types.Func)
+		if !ok || f.Exported() {
+			continue
+		}
+		sig := f.Type().(*types.Signature)
+		if sig.TypeParams().Len() != 0 || sig.Results().Len() != 1 || sig.Results().At(0).Type().String() != "bool" ||
+			sig.Params().Len() == 0 || !isSeqPtr(sig.Params().At(0).Type()) {
+			continue
+		}
+		switch {
+		case sig.Params().Len() == 1 && unitFn == nil:
+			unitFn = c.W.Prog.FuncValue(f)
+		case sig.Params().Len() == 2 && appendFn == nil && sig.Params().At(1).Type().String() == pk.Types.Path()+".Ast":
+			appendFn = c.W.Prog.FuncValue(f)
 		}
 	}
 	return
